@@ -32,7 +32,10 @@ use futures::{
     io::AsyncWriteExt,
     stream::{FuturesUnordered, StreamExt},
 };
+#[cfg(not(libp2p_verif))]
 use futures_timer::Delay;
+#[cfg(libp2p_verif)]
+use libp2p_swarm::verif_delay::Delay;
 use libp2p_core::{
     ConnectedPoint, Multiaddr,
     upgrade::{DeniedUpgrade, ReadyUpgrade},
